@@ -307,7 +307,11 @@ class Gen:
             ops['push'] = P['push'] * 25
         if rng.random() < 0.5:
             ops['goaway'] = P['goaway'] * 10
+        for k, mult in (P.get('ops_boost') or {}).items():
+            ops[k] = max(ops.get(k, 0), 1) * mult
         self.ops = ops
+        self.at_limit_attempts = P.get('at_limit_attempts', 0.1)
+        self.adv_new_streams = P.get('adv_new_streams', 0)
         cfg['swarm'] = {'burst': self.burst, 'eager': self.eager, 'n': self.n_events,
                         'fsm_misuse': self.fsm_misuse, 'race_start': self.race_start,
                         'misuse': self.misuse}
@@ -417,8 +421,19 @@ class Gen:
             self.settle()
             # initial non-default settings, then settle again
             for ep in ('c', 's'):
-                if rng.random() < 0.5 and not self.halted:
-                    self.call(ep, 'update_settings', settings=self._settings_dict(ep, initial=True))
+                bias = P.get('settings_bias') or {}
+                d = None
+                if bias and rng.random() < 0.8:
+                    d = {}
+                    for k, vals in bias.items():
+                        if k == C.S_ENABLE_PUSH and ep == 's':
+                            continue
+                        if rng.random() < 0.7:
+                            d[k] = rng.choice(vals)
+                elif rng.random() < 0.5:
+                    d = self._settings_dict(ep, initial=True)
+                if d and not self.halted:
+                    self.call(ep, 'update_settings', settings=d)
                     self.settle()
         i = 0
         while i < self.n_events and not self.halted:
@@ -495,7 +510,8 @@ class Gen:
         lim = trk.peer.get(C.S_MAX_CONCURRENT_STREAMS)
         nopen = trk.count_open(True)
         if (lim is not None and nopen >= lim) or nopen >= self.max_streams:
-            return
+            if not (lim is not None and nopen >= lim and rng.random() < self.at_limit_attempts):
+                return      # (sometimes the application tries anyway: TooManyStreamsError expected)
         kw = {}
         es = rng.random() < 0.3
         body_len = None
@@ -524,9 +540,9 @@ class Gen:
         if not cands:
             return
         st = rng.choice(cands)
-        if st.state == 'rsvL' and 'F-PUSH-OVER-LIMIT' in self.avoid:
+        if st.state == 'rsvL':
             lim = trk.peer.get(C.S_MAX_CONCURRENT_STREAMS)
-            if lim is not None and trk.count_open(True) >= lim:
+            if lim is not None and trk.count_open(True) >= lim and rng.random() > self.at_limit_attempts:
                 return
         es = rng.random() < 0.3
         body_len = None
@@ -685,9 +701,12 @@ class Gen:
         rng = self.rng
         if e.client:
             return
-        if not trk.peer.get(C.S_ENABLE_PUSH, 1):
-            return
+        if not trk.peer.get(C.S_ENABLE_PUSH, 1) and rng.random() > self.at_limit_attempts:
+            return      # (sometimes the server tries anyway: refusal expected)
         cands = [st for st in live if not st.mine and st.state in ('open', 'hcR')]
+        if rng.random() < self.at_limit_attempts * 0.5:
+            closed = [st for st in trk.streams.values() if not st.mine and st.state == 'closed']
+            cands = cands + closed[:3]
         if not cands:
             return
         st = rng.choice(cands)
@@ -807,7 +826,9 @@ class Gen:
                 kw['pd'] = sid
             self.call(ep, 'send_headers', sid=sid, headers=hs, es=rng.random() < 0.5, **kw)
         elif k == 1:
-            if not fsm_ok and not (st is not None and st.state in ('open', 'hcR') and st.sent == FINAL):
+            early_body = (not e.client and st is not None and not st.mine and st.state in ('open', 'hcR') and
+                          st.sent in (NONE, INFO) and 'F-DATA-BEFORE-HEADERS' not in self.avoid)
+            if not fsm_ok and not early_body and not (st is not None and st.state in ('open', 'hcR') and st.sent == FINAL):
                 if st is not None or not (sid > (trk.hi_mine if trk.is_mine(sid) else trk.hi_peer)):
                     return
             size = rng.choice([0, 1, 100, trk.conn_send + 1, (st.send_win + 1) if st else 7, mf + 1, mf])
@@ -815,7 +836,9 @@ class Gen:
             pad = rng.choice([None, None, 0, 255, 256, -1])
             self.call(ep, 'send_data', sid=sid, data=b'x' * size, es=rng.random() < 0.3, pad=pad)
         elif k == 2:
-            if not fsm_ok and not (st is not None and st.state in ('open', 'hcR') and st.sent == FINAL):
+            early_body = (not e.client and st is not None and not st.mine and st.state in ('open', 'hcR') and
+                          st.sent in (NONE, INFO) and 'F-DATA-BEFORE-HEADERS' not in self.avoid)
+            if not fsm_ok and not early_body and not (st is not None and st.state in ('open', 'hcR') and st.sent == FINAL):
                 return
             self.call(ep, 'end_stream', sid=sid)
         elif k == 3:
